@@ -8,6 +8,7 @@ import (
 	"github.com/elastos/Elastos.ELA/common/config"
 	pg "github.com/elastos/Elastos.ELA/core/contract/program"
 	common2 "github.com/elastos/Elastos.ELA/core/types/common"
+	"github.com/elastos/Elastos.ELA/core/types/outputpayload"
 	"github.com/elastos/Elastos.ELA/core/types/payload"
 	"github.com/elastos/Elastos.ELA/dpos/state"
 	"github.com/elastos/Elastos.ELA/zzverif/nd"
@@ -72,7 +73,7 @@ func ZZ_C33_v0() {
 	tx.SetPrograms([]*pg.Program{{Code: code, Parameter: []byte{}}})
 	tx.references = map[*common2.Input]common2.Output{}
 	allCross := true
-	for i := 0; i < nd.Choose("references", 2)+1; i++ {
+	for i, zzn := 0, nd.Choose("references", 2)+1; i < zzn; i++ {
 		var o common2.Output
 		o.ProgramHash[0] = nd.U8("prefix")
 		if o.ProgramHash[0] != 0x4B {
@@ -102,6 +103,107 @@ func ZZ_C33_v0() {
 		}
 		nd.Assert(!inScript[3], "script_names_no_foreign_key")
 		nd.Assert(slots == normal, "script_has_one_slot_per_normal_arbiter")
+		m := int(code[0]) - 0x51 + 1
+		nd.Assert(m >= 2, "required_signature_count_is_at_least_the_quorum")
+	}
+}
+
+// ZZ_C33_v1: a payload-version-1 side-chain withdrawal (side-chain hashes in
+// withdraw outputs) passes its special context check only if every referenced
+// output is a cross-chain UTXO, no withdraw output — wherever it stands among
+// 1..3 outputs, plain outputs included — names a side-chain transaction hash
+// that was withdrawn before, and its program is an m-of-n script whose keys
+// are exactly the current normal arbiters with m at least the quorum.
+// Arbiters: 3, the third normal or not; script: exact, one key short, one key
+// replaced by a foreign key, or one foreign key more; m in 1..3, n in 2..4;
+// 1..2 outputs (3 in the thorough tier); reference prefixes X, E or 8.
+func ZZ_C33_v1() {
+	arb := &zzArbiters{}
+	normal := 0
+	for i := 0; i < 3; i++ {
+		isN := i < 2 || nd.Bool("thirdArbiterIsNormal")
+		arb.cross = append(arb.cross, &state.ArbiterInfo{NodePublicKey: zzKeyBytes(i), IsNormal: isN})
+		if isN {
+			normal++
+		}
+	}
+	store := &zzUsedStore{used: map[common.Uint256]bool{}}
+	old := blockchain.DefaultLedger
+	blockchain.DefaultLedger = &blockchain.Ledger{Arbitrators: arb, Store: store}
+	defer func() { blockchain.DefaultLedger = old }()
+
+	cfg := &config.Configuration{}
+	cfg.SchnorrStartHeight = 0xffffffff
+	cfg.CRConfiguration.CRClaimDPOSNodeStartHeight = 10
+	cfg.DPoSConfiguration.DPOSNodeCrossChainHeight = 20
+	cfg.DPoSConfiguration.NormalArbitratorsCount = 1 // required signatures: 2
+	var keys []int
+	for i := 0; i < normal; i++ {
+		keys = append(keys, i)
+	}
+	shape := nd.Choose("scriptShape", 4)
+	switch shape {
+	case 1:
+		keys = keys[:len(keys)-1]
+	case 2:
+		keys[len(keys)-1] = 3
+	case 3:
+		keys = append(keys, 3)
+	}
+	code := []byte{byte(0x51 + nd.Choose("m", 3))}
+	for _, k := range keys {
+		code = append(code, 33)
+		code = append(code, zzKeyBytes(k)...)
+	}
+	code = append(code, byte(0x52+nd.Choose("n", 3)), common.CROSSCHAIN)
+
+	hs := []common.Uint256{{0x5D, 0}, {0x5D, 1}}
+	for i := range hs {
+		if nd.Bool("hashAlreadyWithdrawn") {
+			store.used[hs[i]] = true
+		}
+	}
+	tx := &WithdrawFromSideChainTransaction{}
+	tx.SetTxType(common2.WithdrawFromSideChain)
+	tx.SetPayloadVersion(payload.WithdrawFromSideChainVersionV1)
+	tx.SetPayload(&payload.WithdrawFromSideChain{})
+	tx.SetPrograms([]*pg.Program{{Code: code, Parameter: []byte{}}})
+	replays := false
+	for i, zzn := 0, nd.Choose("outputs", 2+nd.Tier())+1; i < zzn; i++ {
+		o := &common2.Output{ProgramHash: common.Uint168{0x21, 9}, Payload: &outputpayload.DefaultOutput{}}
+		if k := nd.Choose("outputKind", 3); k > 0 {
+			o.Type = common2.OTWithdrawFromSideChain
+			o.Payload = &outputpayload.Withdraw{SideChainTransactionHash: hs[k-1]}
+			if store.used[hs[k-1]] {
+				replays = true
+			}
+		}
+		tx.SetOutputs(append(tx.Outputs(), o))
+	}
+	tx.references = map[*common2.Input]common2.Output{}
+	allCross := true
+	for i, zzn := 0, nd.Choose("references", 2)+1; i < zzn; i++ {
+		var o common2.Output
+		o.ProgramHash[0] = []byte{0x4B, 0x21, 0x12}[nd.Choose("prefix", 3)]
+		if o.ProgramHash[0] != 0x4B {
+			allCross = false
+		}
+		tx.references[&common2.Input{Sequence: uint32(i)}] = o
+	}
+	tx.parameters = &TransactionParameters{Transaction: tx, BlockHeight: 100, Config: cfg}
+	var err error
+	nd.NoPanic("SpecialContextCheck", func() {
+		err2, _ := tx.SpecialContextCheck()
+		if err2 != nil {
+			err = err2
+		}
+	})
+	nd.Reach("decided")
+	if err == nil {
+		nd.Reach("accepted")
+		nd.Assert(allCross, "accepted_withdrawal_spends_only_cross_chain_utxos")
+		nd.Assert(!replays, "a_withdrawn_side_chain_hash_is_never_withdrawn_again")
+		nd.Assert(shape == 0, "script_names_exactly_the_normal_arbiters")
 		m := int(code[0]) - 0x51 + 1
 		nd.Assert(m >= 2, "required_signature_count_is_at_least_the_quorum")
 	}
